@@ -5,7 +5,7 @@ np.repeat(column, lengths) -- independent of the library's XOR-scatter broadcast
 Exact comparison including the result dtype; operands must be unchanged."""
 import operator
 import numpy as np
-from ..core import CTX, attempt, held, violated, undefined, same_array, peek, short, lists_same
+from ..core import CTX, attempt, held, violated, undefined, same_array, peek, short, lists_same, same_dtype
 from .. import gen, contracts
 from . import c02
 
@@ -151,7 +151,7 @@ def run(case):
     exp = np.asarray(exp)
     if exp.ndim == 0:
         exp = np.full(tot, exp)
-    if g.dtype != exp.dtype:
+    if not same_dtype(g.dtype, exp.dtype):
         return violated("%s has dtype %s, numpy's result dtype is %s" % (describe(), g.dtype, exp.dtype), tags + ["dtype-differs"], got=str(g.dtype), expected=str(exp.dtype))
     if not same_array(g, exp) and kind in ("col", "collist") and exp.dtype.kind == "f":
         # numpy itself has two answers here: power(x, 2.0) with a *scalar* exponent takes a multiplication fast path that can differ
@@ -185,6 +185,8 @@ def _vals(rng, dtype, n, vclass):
     k = np.dtype(dtype).kind
     if vclass == "nonfinite" and k != "f":
         vclass = "extreme"
+    if vclass == "decimal" and k != "f":
+        vclass = "small"
     return gen.values(rng, dtype, n, vclass).tolist()
 
 
@@ -280,12 +282,14 @@ def directed():
         yield mk_case(lens, "int64", _vals(rng, "int64", sum(lens), "small"), "add", "col", "R", [10, 20, 30, 40][:len(lens)], "int64")
     # hostile float columns and mismatching partners on receivers that are selections / results of other operations
     for recv in c02.RECVS[1:]:
-        for lens_ in ([2, 1, 3], [1, 2, 2, 1]):
+        for lens_ in ([2, 1, 3], [1, 2, 2, 1], [2, 2, 2], [3, 3, 3, 3]):
             tot_ = sum(lens_)
             yield mk_case(lens_, "float64", [0.5 * k for k in range(tot_)], "add", "col", "R", [0.1, float("nan"), 1e17, 0.7][:len(lens_)], "float64", False, "nonfinite", recv)
             yield mk_case(lens_, "int64", list(range(tot_)), "subtract", "col", "L", [0.9, 1e16, 1.0, float("inf")][:len(lens_)], "float64", True, "nonfinite", recv)
             yield mk_case(lens_, "int64", list(range(tot_)), "multiply", "collist", "R", [0.5, 1.5, 2.0, 0.25][:len(lens_)], None, False, "small", recv)
             bl = lens_[1:] + lens_[:1]
+            if bl == lens_:
+                continue
             yield mk_case(lens_, "int64", list(range(tot_)), "add", "bad_same_total", "R", {"lens": bl, "vals": list(range(tot_))}, "int64", False, "small", recv)
             yield mk_case(lens_, "int64", list(range(tot_)), "less", "bad_same_total", "L", {"lens": bl, "vals": list(range(tot_))}, "int64", True, "small", recv)
     # columns of signed zeros with sign-sensitive ufuncs; one-row ragged operands that would broadcast
@@ -312,7 +316,7 @@ def directed():
 def random_case(rng, tier):
     lens, _ = gen.length_vector(rng, tier)
     dtype = rng.choice(gen.DT_ALL)
-    vclass = rng.choice(["small", "small", "extreme", "nonfinite", "sparse"])
+    vclass = rng.choice(["small", "small", "extreme", "nonfinite", "sparse", "decimal"])
     c = gen_case(rng, lens, dtype, vclass)
     if rng.random() < 0.35:
         c["recv"] = rng.choice(c02.RECVS[1:])
